@@ -799,11 +799,25 @@ def h_cats_int_label_other_kind(p: int, n: int, op1: int, with_meta: bool) -> bo
 
 
 def replay_h_cats_int_label_other_kind(p, n, op1, with_meta):
+    # Half stands for any numbers.Real of value n/2: the replay tries the kinds of constant a caller can hold
+    import numpy as np
+    from fractions import Fraction
+    kinds = [("float", float(n) / 2), ("Fraction", Fraction(n, 2))]
+    if float(np.float32(n / 2)) == n / 2:
+        kinds.append(("numpy.float32", np.float32(n / 2)))
+    last = None
+    for name, c in kinds:
+        last = _replay_int_label_const(p, c, name, op1, with_meta)
+        if last[0]:
+            return last
+    return last
+
+
+def _replay_int_label_const(p, const, kind, op1, with_meta):
     import tempfile, os, shutil
     import numpy as np
     import pandas as pd
     import fastparquet
-    const = n / 2
     assert int(np.dtype("int64").type(const)) == int(const)         # the stub's contract
     if op1 >= 7:
         const = [const, const + 1]
@@ -825,8 +839,8 @@ def replay_h_cats_int_label_other_kind(p, n, op1, with_meta):
         if not row_pred(OPS[op1], p, const):
             return False, "the rows of partition p=%d do not satisfy %r" % (p, flt)
         if not (1 in kept and 2 in kept):
-            return True, ("integer partition p=%d (%s partition metadata): filter %r keeps rows a=%r; rows a=1, a=2 "
-                          "satisfy it" % (p, "with" if with_meta else "without", flt, kept))
+            return True, ("integer partition p=%d (%s partition metadata): filter %r (constant of kind %s) keeps rows "
+                          "a=%r; rows a=1, a=2 satisfy it" % (p, "with" if with_meta else "without", flt, kind, kept))
         return False, "kept"
     finally:
         shutil.rmtree(dd, ignore_errors=True)
